@@ -10,11 +10,11 @@ import (
 
 func init() {
 	register(&propInfo{
-		ID: "C19",
+		ID:          "C19",
 		Explanation: "Path and value-origin analysis of the auth package. The permission checks only compare permissions for equality, so these path facts are the whole argument: (R19.1) in the per-field wrapper built by PermissionedProxy every delegation to the implementation is dominated by the true outcome of HasPerm(ctx from the call's first argument, PermissionedProxy's default-permissions parameter, the field's perm tag), and the false outcome returns an error value without delegating; (R19.2) HasPerm searches exactly the set attached to the context when one is attached (comma-ok true) and the defaults only otherwise, returns true only under element == required permission and false otherwise, and reads the same context key WithPerm writes; (R19.3) the HTTP handler reaches Next either with the original context on the token-less path or with WithPerm(ctx, allow) where allow is the verifier's own result on the verified path, and every 401 path (missing Bearer prefix, verifier error) never reaches Next; the token is taken from the Authorization header and otherwise from the token form value with the Bearer prefix added.",
-		NotDecided: "What a user-supplied Verify function returns; reflection details of field/method matching by name in PermissionedProxy (MethodByName) beyond the tag validation; HTTP semantics of FormValue.",
+		NotDecided:  "What a user-supplied Verify function returns; reflection details of field/method matching by name in PermissionedProxy (MethodByName) beyond the tag validation; HTTP semantics of FormValue.",
 		Assumptions: []string{"PermissionedProxy's second parameter is the default permission set and its first the valid set (exported signature)", "HasPerm, WithPerm, PermissionedProxy and Handler.ServeHTTP are resolved by their exported names (public API)"},
-		Run: runC19,
+		Run:         runC19,
 	})
 }
 
@@ -577,7 +577,7 @@ func (c *Ctx) r193(withPerm *ssa.Function) {
 			}
 			if w := reachFromBlockUp(errBranch, isNext, nil); w != nil {
 				c.bad(rule, construct, c.ipos(w), "a rejected token still reaches the next handler")
-			} else if ret := reachFromBlockUp(errBranch, isReturn, is401); ret != nil {
+			} else if ret := reachFromBlockUp(errBranch, isEnd, is401); ret != nil {
 				c.bad(rule, construct, c.ipos(ret), "a rejected token is not answered with 401")
 			} else {
 				c.ok(rule, construct, c.ipos(verify), "error branch writes 401 and returns")
@@ -614,7 +614,7 @@ func (c *Ctx) r193(withPerm *ssa.Function) {
 				c.bad(rule, construct, c.ipos(w), "a token without the Bearer prefix reaches the next handler")
 			} else if w := reachFromBlockUp(bad, func(x ssa.Instruction) bool { return x == ssa.Instruction(verify) }, nil); w != nil {
 				c.bad(rule, construct, c.ipos(w), "a token without the Bearer prefix is handed to the verifier")
-			} else if ret := reachFromBlockUp(bad, isReturn, is401); ret != nil {
+			} else if ret := reachFromBlockUp(bad, isEnd, is401); ret != nil {
 				c.bad(rule, construct, c.ipos(ret), "a malformed token is not answered with 401")
 			} else {
 				c.ok(rule, construct, c.ipos(iff), "writes 401 and returns")
@@ -701,6 +701,7 @@ func (c *Ctx) r193(withPerm *ssa.Function) {
 		}
 		return false
 	}
+	sawVerifiedAny := false
 	for _, nc := range nextCalls {
 		nc := nc
 		construct := "(*Handler).ServeHTTP: context handed to Next"
@@ -728,7 +729,8 @@ func (c *Ctx) r193(withPerm *ssa.Function) {
 			switch {
 			case isCtx0(e):
 				// original context: this alternative must not be chosen after a successful verification
-				if afterVerify(src) {
+				direct := src.pred == nil && src.ret == nil && reachFromUp(verify, func(x ssa.Instruction) bool { return x == ssa.Instruction(nc) }, nil) != nil
+				if afterVerify(src) || direct {
 					okAll = false
 					c.bad(rule, construct, c.ipos(nc), "a verified request is passed on with the original context (permissions not attached)")
 				}
@@ -762,13 +764,15 @@ func (c *Ctx) r193(withPerm *ssa.Function) {
 				}
 			}
 		}
-		if !sawVerified {
-			okAll = false
-			c.bad(rule, construct, c.ipos(nc), "the verified path does not attach the verifier's permissions")
+		if sawVerified {
+			sawVerifiedAny = true
 		}
 		if okAll {
 			c.ok(rule, construct, c.ipos(nc), "original ctx on the token-less path, WithPerm(ctx, verifier result) under err == nil otherwise")
 		}
+	}
+	if !sawVerifiedAny {
+		c.bad(rule, "(*Handler).ServeHTTP: context handed to Next", p.pos(serve.Pos()), "the verified path does not attach the verifier's permissions")
 	}
 	// token sources: Authorization header, else token form value with Bearer prefix added
 	{
